@@ -369,6 +369,10 @@ Proof. vm_compute. reflexivity. Qed.
 Lemma skip_sets_agree : all_below (fun b => Bool.eqb (memN b dispatch_skip_ops) (existsb (N.eqb b) skip_opcodes)) 256 0 = true.
 Proof. vm_compute. reflexivity. Qed.
 
+(* the loop decodes the instruction word exactly like the verifier *)
+Lemma decode_fields_agree : disp_op_shift = op_shift /\ disp_a_shift = a_shift /\ disp_b_shift = b_shift.
+Proof. repeat split; reflexivity. Qed.
+
 Lemma w_op_lt (w : N) : w_op w < 256.
 Proof. unfold w_op. apply N.mod_lt. discriminate. Qed.
 
